@@ -34,15 +34,19 @@ def render(rec):
                      ("names", lst(nm))], 2)
     st_fields = [("type", '"simple"'), ("size", str(n))]
     if lay["nested_extra"]:
-        st_fields.append(("extra", rec_([("depth", "2"), ("tag", '"x"')], 3)))
+        # a nested record holding a list (interval syntax when the layout says so) that is NOT its last field
+        span = "[1..%d]" % n if lay["interval"] else lst([str(i) for i in range(1, n + 1)])
+        st_fields.append(("extra", rec_([("depth", "2"), ("span", span), ("tag", '"x"')], 3)))
     states = rec_(st_fields, 2)
     accepting = "[1..%d]" % n if lay["interval"] else lst([str(i) for i in range(1, n + 1)])
     nt = sum(1 for row in table for x in row if x != 0)
-    rows = [lst([str(x) for x in row]) for row in table]
+    # rows the specification marks "interval" are runs x, x+1, ..., y (GapRecord!IntervalMeaning): written [x..y]
+    rows = ["[%d..%d]" % (row[0], row[-1]) if form == "interval" else lst([str(x) for x in row])
+            for row, form in zip(table, rec["rowform"])]
     trans = "[" + (("," + ind(4)) if sep == "newline" else ",").join(rows) + "]"
     tab = rec_([("format", '"dense deterministic"'), ("numTransitions", str(nt)), ("transitions", trans)], 2)
     f_is, f_al, f_st = ("isFSA", "true"), ("alphabet", alphabet), ("states", states)
-    f_fl, f_in = ("flags", lst(['"DFA"', '"minimized"'])), ("initial", lst([str(init)]))
+    f_fl, f_in = ("flags", lst(['"DFA"', '"minimized"'])), ("initial", "[%d..%d]" % (init, init) if lay["initint"] else lst([str(init)]))
     f_ac, f_ta = ("accepting", accepting), ("table", tab)
     if lay["order"] == "std":
         fields = [f_is, f_al, f_st, f_fl, f_in, f_ac, f_ta]
@@ -51,6 +55,9 @@ def render(rec):
     else:
         fields = [f_is, f_al, f_st, f_fl, f_ac, f_ta, f_in]
     return "_RWS.wa" + A + rec_(fields, 1) + ";\n"
+
+
+PICKED = []     # a few emitted records, used by c09_pair as "named" construction routes (kbmag text)
 
 
 def load_text(text):
@@ -82,54 +89,77 @@ def check_record(run, rec, via_file=None):
         bad = ("raised", "%s: %s" % (type(e).__name__, e))
     if bad:
         run.violation(key, "gap:" + bad[0], dict(text=text, observed=bad[1], record={k: rec[k] for k in ("n", "names", "table", "init", "layout")}))
+    return bad is None
 
 
 def run(run):
     quick = run.tier == "quick"
     configs = [(3, {"a", "b"}, "hash")] if quick else [(2, {"a", "b"}, "all"), (3, {"a", "b"}, "hash"), (2, {"a", "b", "c"}, "hash")]
-    total = 0
+    total = n_inner = n_last = 0
+    del PICKED[:]
     tmpf = os.path.join(run.work, "rec.wa")
     for (ms, names, mode) in configs:
         c = core.cfg(constants=dict(MaxStates=ms, Names=names, LayoutMode=mode, MaxLen=3),
-                     invariants=["TableMeaning", "Deterministic", "EmitRec"])
+                     invariants=["TableMeaning", "Deterministic", "IntervalMeaning", "EmitRec"])
         r = run.tlc("fsa/GapRecord.tla", c, name="GapRecord_%d_%d_%s" % (ms, len(names), mode),
                     workers=min(8, core.NCPU), emit_prefix="REC ")
         for i, rec in enumerate(r.emits):
             check_record(run, rec, via_file=tmpf if i % 50 == 0 else None)
             run.case(key=None, action="load_gap_record")
             total += 1
+            forms = rec["rowform"]
+            if (len(PICKED) < 2 and rec["n"] == 3 and len(rec["names"]) == 2 and len(rec["E"]) >= 4
+                    and ("interval" in forms[:-1]) == (len(PICKED) == 0)):
+                PICKED.append(rec)
+            if "interval" in forms[:-1]:
+                n_inner += 1
+            elif forms and forms[-1] == "interval":
+                n_last += 1
         if r.emits:
             rec = r.emits[len(r.emits) // 3]
             run.sample(dict(kind="kbmag record", text=render(rec), expected_edges=rec["E"], init=rec["init"]))
     run.traces += total
     run.extra["gap_records"] = total
+    run.extra["gap_records_with_interval_row"] = dict(not_in_last_position=n_inner, last_position_only=n_last)
+    if not n_inner or not n_last:
+        raise core.MachineryFailure("GapRecord.tla emitted no record with a transition row in interval syntax "
+                                    "(inner %d, last %d): the interval clause would be vacuous" % (n_inner, n_last))
     builtin_files(run)
 
 
-def builtin_files(run):
-    """every built-in automaton file: the loaded automaton's three views equal the table written in the text
-    (table extracted by an independent regular-expression reader)."""
+def read_builtin_table(name):
+    """the table written in a built-in file, extracted by an independent regular-expression reader:
+    (vertex set, edge set {(i, label, target)}, initial state)"""
     import re
     import importlib.resources
     from geometry_tools import automata
     from geometry_tools.automata import fsa
+    text = (importlib.resources.files(automata) / fsa.BUILTIN_DIR / name).read_text()
+    flat = re.sub(r"\s+", "", text)
+    m_names = re.search(r"names:=\[([^\]]*)\]", flat)
+    m_tr = re.search(r"transitions:=\[(\[.*?\])\]\)", flat)
+    m_init = re.search(r"initial:=\[(\d+)\]", flat)
+    if not (m_names and m_tr and m_init):
+        raise core.MachineryFailure("cannot read built-in file %s independently" % name)
+    labs = [x.strip('"') for x in m_names.group(1).split(",")]
+    rows = [[int(x) for x in r.split(",") if x != ""] for r in re.findall(r"\[([^\[\]]*)\]", m_tr.group(1))]
+    E = {(i + 1, labs[j], t) for i, row in enumerate(rows) for j, t in enumerate(row) if t != 0}
+    vs = set(range(1, len(rows) + 1))
+    return vs, E, int(m_init.group(1))
+
+
+def builtin_files(run):
+    """every built-in automaton file: the loaded automaton's three views equal the table written in the text
+    (table extracted by an independent regular-expression reader) - also when the file is loaded AGAIN after the
+    instance loaded first was edited (the histories with edits are emitted by FSAPair.tla, see c09_pair)."""
+    from geometry_tools.automata import fsa
     names = sorted(fsa.list_builtins())
     for name in names:
-        text = (importlib.resources.files(automata) / fsa.BUILTIN_DIR / name).read_text()
-        flat = re.sub(r"\s+", "", text)
-        m_names = re.search(r"names:=\[([^\]]*)\]", flat)
-        m_tr = re.search(r"transitions:=\[(\[.*?\])\]\)", flat)
-        m_init = re.search(r"initial:=\[(\d+)\]", flat)
-        if not (m_names and m_tr and m_init):
-            raise core.MachineryFailure("cannot read built-in file %s independently" % name)
-        labs = [x.strip('"') for x in m_names.group(1).split(",")]
-        rows = [[int(x) for x in r.split(",") if x != ""] for r in re.findall(r"\[([^\[\]]*)\]", m_tr.group(1))]
-        E = {(i + 1, labs[j], t) for i, row in enumerate(rows) for j, t in enumerate(row) if t != 0}
-        vs = set(range(1, len(rows) + 1))
+        vs, E, init = read_builtin_table(name)
         try:
             f = fsa.load_builtin(name)
             bad = fc.project_check(f, vs, E)
-            if not bad and list(f.start_vertices) != [int(m_init.group(1))]:
+            if not bad and list(f.start_vertices) != [init]:
                 bad = ("start", repr(f.start_vertices))
         except Exception as e:
             bad = ("raised", "%s: %s" % (type(e).__name__, e))
